@@ -22,7 +22,10 @@ def main():
     out = {}
     for f in sorted(glob.glob(os.path.join(HERE, "evidence", "C*.json"))):
         e = json.load(open(f))
-        fams = sorted({family(o["name"]) for o in e["coverage"]["obligation_list"] if o["status"] in ("proved", "failed")})
+        # (per-function frame obligations are enumerated from the code: a refactoring that renames or removes a helper
+        #  legitimately changes that list, so they are not required by name)
+        fams = sorted({family(o["name"]) for o in e["coverage"]["obligation_list"]
+                       if o["status"] in ("proved", "failed") and not re.search(r"^C\d\d\.frame\.[a-z_]+\.", o["name"])})
         out[e["property_id"]] = fams
     json.dump(out, open(os.path.join(HERE, "required_obligations.json"), "w"), indent=0, sort_keys=True)
     print({k: len(v) for k, v in out.items()})
